@@ -16,7 +16,7 @@ def ref(all_values, caps):
     for v in all_values:
         if v.capture in caps:
             for x in caps[v.capture].values:
-                ok = (v.value == x) or (isinstance(v.value, MatchFunction) and v.value.fn(x))
+                ok = v.value.fn(x) if isinstance(v.value, MatchFunction) else (v.value == x)
                 if not ok:
                     return False
     return True
